@@ -261,6 +261,7 @@ func (cr *CheckRun) CheckCorpusCompiles(corpusDir string) {
 	entries = append(entries, ParamCorpus(corpusDir)...)
 	entries = append(entries, ResponseCorpus(corpusDir)...)
 	entries = append(entries, JSONCorpus(cr.VerifDir)...)
+	entries = append(entries, FindingsCorpus(cr.VerifDir)...)
 	type res struct {
 		name string
 		gen  error
